@@ -312,7 +312,11 @@ fn th_sweep_managed(args: &Args, rep: &mut Report, prop: &'static str) {
             let mut i = wk;
             while i < n {
                 let sc = &scenarios[i];
+                let t_sc = std::time::Instant::now();
                 let mut out = run_sweep(prop, sc);
+                if std::env::var_os("VERIF_SLOW").is_some() && t_sc.elapsed() > std::time::Duration::from_millis(300) {
+                    eprintln!("slow scenario {:?}: {}", t_sc.elapsed(), sc.sig());
+                }
                 // the stable-hang verdict rests on a wall-clock watchdog: believed only if it repeats
                 if out.violations.first().map(|v| v.oracle == "stranded_waiter").unwrap_or(false) {
                     let again = run_sweep(prop, sc);
